@@ -172,7 +172,9 @@ Definition src_NadaFunction_init : list string :=  [
    "self.store_in_ast()"].
 
 Definition src_NadaFunction_call : list string :=  [
-   "args = inspect.signature(self.function).bind(*args, **kwargs).args"; 
+   "bound = inspect.signature(self.function).bind(*args, **kwargs)"; 
+   "if bound.kwargs: ;     raise TypeError(f'{self.function.__name__}() got a value for the keyword-only parameter(s) {', '.join(bound.kwargs)}, which a Nada function call cannot bind')"; 
+   "args = bound.args"; 
    "if len(args) != len(self.args): ;     raise TypeError(f'{self.function.__name__}() takes {len(self.args)} arguments but {len(args)} were given')"; 
    "return self.return_type(child=NadaFunctionCall(self, args, source_ref=SourceRef.back_frame()))"].
 
